@@ -85,7 +85,6 @@ Proof.
   assert (HL : zlen e = Z.of_nat L) by reflexivity.
   destruct fft.
   - (* FFT branch *)
-    unfold py_mod. cbn [Z.eqb bind].
     set (m := Z.min (zlen e) (Z.of_nat w)).
     set (P := zlen e + m + (zlen e + m) mod 2).
     assert (Hm : m = Z.of_nat (Nat.min L w)) by (unfold m; rewrite HL; lia).
